@@ -97,3 +97,85 @@ def copy_prop_data(pd):
     for k, v in pd.items():
         out[k] = [jnp.array(x) for x in v] if isinstance(v, list) else (jnp.array(v) if hasattr(v, "shape") else v)
     return out
+
+
+def chain_adjacency(n, periodic=True):
+    a = np.zeros((n, n))
+    for i in range(n - 1):
+        a[i, i + 1] = a[i + 1, i] = 1
+    if periodic and n > 2:
+        a[0, n - 1] = a[n - 1, 0] = 1
+    return a
+
+
+def grid_adjacency(lx, ly):
+    n = lx * ly
+    a = np.zeros((n, n))
+    for y in range(ly):
+        for x in range(lx):
+            i = y * lx + x
+            for (dx, dy) in ((1, 0), (0, 1)):
+                j = ((y + dy) % ly) * lx + (x + dx) % lx
+                if i != j:
+                    a[i, j] = a[j, i] = 1
+    return a
+
+
+def make_hubbard(rng, adj, u, nelec, trial_kind="uhf_cpmc", prop_kind="cpmc", dt=0.05, n_walkers=4, u1=0.5,
+                 uniform_trial=False, seed=0, init_walkers=None, chol_onsite=True):
+    """Hubbard model the way examples/hubbard.ipynb sets it up: h1 = -t adjacency, on-site Cholesky vectors
+    sqrt(U) |i><i|, ham_data['u'] = U; trial from a (pinned-field) mean-field diagonalisation"""
+    import jax.numpy as jnp
+    from jax import random as jr
+    from ad_afqmc import hamiltonian, propagation, wavefunctions as wf
+    norb = adj.shape[0]
+    ham = hamiltonian.hamiltonian(norb)
+    h1 = -1.0 * adj
+    chol = np.zeros((norb, norb, norb))
+    if chol_onsite:
+        for i in range(norb):
+            chol[i, i, i] = np.sqrt(u)
+    ham_data = {"h0": 0.0, "h1": jnp.array([h1, h1]), "chol": jnp.array(chol.reshape(norb, norb * norb)), "ene0": 0.0,
+                "u": float(u), "u_1": float(u1), "hs_constant": float(np.sqrt(dt * u))}
+    # trial orbitals: eigenvectors of h1 plus a site potential (non-uniform density unless uniform_trial)
+    pin = np.zeros(norb) if uniform_trial else np.array([rng.randint(-4, 4) / 8.0 for _ in range(norb)])
+    wa, va = np.linalg.eigh(h1 + np.diag(pin))
+    wb, vb = np.linalg.eigh(h1 - np.diag(pin))
+    ca, cb = va[:, :nelec[0]], vb[:, :nelec[1]]
+    wave_data = {}
+    if trial_kind == "uhf_cpmc":
+        trial = wf.uhf_cpmc(norb, nelec)
+        wave_data["mo_coeff"] = [jnp.array(ca), jnp.array(cb)]
+        wave_data["rdm1"] = jnp.array([ca @ ca.T, cb @ cb.T])
+    elif trial_kind == "ghf_cpmc":
+        trial = wf.ghf_cpmc(norb, nelec)
+        c = np.zeros((2 * norb, nelec[0] + nelec[1]))
+        c[:norb, :nelec[0]] = ca
+        c[norb:, nelec[0]:] = cb
+        if not uniform_trial:
+            # genuinely spin-mixed: rotate with a small orthogonal mixing of up and down blocks
+            th = 0.3
+            rot = np.block([[np.cos(th) * np.eye(norb), -np.sin(th) * np.eye(norb)], [np.sin(th) * np.eye(norb), np.cos(th) * np.eye(norb)]])
+            c = rot @ c
+        wave_data["mo_coeff"] = jnp.array(c)
+        d = c @ c.T
+        wave_data["rdm1"] = jnp.array([d[:norb, :norb], d[norb:, norb:]])
+    else:
+        raise ValueError(trial_kind)
+    nb = tuple((i, int(j)) for i in range(norb) for j in np.nonzero(adj[i])[0] if i < j)
+    cls = {"cpmc": propagation.propagator_cpmc, "cpmc_slow": propagation.propagator_cpmc_slow,
+           "cpmc_nn": propagation.propagator_cpmc_nn, "cpmc_nn_slow": propagation.propagator_cpmc_nn_slow,
+           "cpmc_continuous": propagation.propagator_cpmc_continuous}[prop_kind]
+    if "nn" in prop_kind:
+        prop = cls(dt=dt, n_walkers=n_walkers, neighbors=nb)
+    else:
+        prop = cls(dt=dt, n_walkers=n_walkers)
+    ham_data = ham.build_measurement_intermediates(ham_data, trial, wave_data)
+    ham_data = ham.build_propagation_intermediates(ham_data, prop, trial, wave_data)
+    if init_walkers is None:
+        # walkers differ from the trial: the free (pin = 0) orbitals
+        w0, v0 = np.linalg.eigh(h1 + 1e-3 * np.diag(np.arange(norb)))
+        init_walkers = [jnp.array([v0[:, :nelec[0]] + 0.0j] * n_walkers), jnp.array([v0[:, :nelec[1]] + 0.0j] * n_walkers)]
+    prop_data = prop.init_prop_data(trial, wave_data, ham_data, init_walkers)
+    prop_data["key"] = jr.PRNGKey(seed)
+    return dict(ham=ham, ham_data=ham_data, trial=trial, wave_data=wave_data, prop=prop, prop_data=prop_data, adj=adj, u=u)
